@@ -91,3 +91,32 @@ harness!(name=c14_fit_mismatch, prop=C14, mode=R, kind=mustpanic, tier=quick, un
     let mut pr = PolynomialRegressor::new(1);
     crate::vmustpanic!(pr.fit(&x, &y), "x and y lengths differ");
 });
+
+// @bound c14_refit_: degree D, N points per fit (instance); both data sets arbitrary bit patterns (floating-point operations opaque, U); instance "ends": the second abscissae share their first and last value with the first ones
+// @claim c14_refit_: fitting an object that was already fitted on other data gives bit-identical coefficients to fitting a fresh object (no state carried from one fit to the next) (U)
+// @modes c14_refit_: U
+// @cap c14_refit_: 40
+fn refit<const D: usize, const N: usize>(share_ends: bool) {
+    let x1: [f64; N] = inp::arr(0);
+    let y1: [f64; N] = inp::arr(20);
+    let mut x2: [f64; N] = inp::arr(40);
+    let y2: [f64; N] = inp::arr(60);
+    if share_ends {
+        x2[0] = x1[0];
+        x2[N - 1] = x1[N - 1];
+    }
+    let mut pr = PolynomialRegressor::new(D);
+    pr.fit(&x1, &y1);
+    pr.fit(&x2, &y2);
+    let mut fresh = PolynomialRegressor::new(D);
+    fresh.fit(&x2, &y2);
+    vassert!(pr.coef.len() == D + 1 && fresh.coef.len() == D + 1, "coefficient count after a second fit");
+    let mut i = 0;
+    while i <= D {
+        crate::vbits!(pr.coef[i], fresh.coef[i], "coefficient {} after a second fit", i);
+        i += 1;
+    }
+}
+harness!(name=c14_refit_d0, prop=C14, mode=U, kind=normal, tier=quick, unwind=20, { refit::<0, 2>(false) });
+harness!(name=c14_refit_d1_ends, prop=C14, mode=U, kind=normal, tier=quick, unwind=20, { refit::<1, 3>(true) });
+harness!(name=c14_refit_d1, prop=C14, mode=U, kind=normal, tier=thorough, unwind=20, { refit::<1, 3>(false) });
